@@ -119,6 +119,12 @@ func Origins(v ssa.Value) []Origin {
 		case *ssa.Field:
 			add("field", Expr(x), x)
 		case *ssa.BinOp:
+			// string concatenation: the value is built from both operands
+			if b, ok := x.Type().Underlying().(*types.Basic); ok && x.Op == token.ADD && b.Info()&types.IsString != 0 {
+				walk(x.X)
+				walk(x.Y)
+				return
+			}
 			add("op", Expr(x), x)
 		default:
 			add("other", Expr(v), v)
